@@ -47,7 +47,8 @@ pub fn cmd_equiv(a: &Args) {
     // extensions of such frameworks are out of reach); TLC judges the verdict fields
     let nbig = a.num("big", 0);
     for i in 0..nbig {
-        let n_cycles = 1500 + 700 * (i % 4);
+        // the last one has more than 65 536 classes (33 000 independent even cycles: two classes each)
+        let n_cycles = if i + 1 == nbig { 33_000 + 100 * (i % 3) } else { 1500 + 700 * (i % 4) };
         let mut att: Vec<(usize, usize)> = vec![(1, 2), (2, 3)];
         let mut nxt = 4;
         for _ in 0..n_cycles {
